@@ -11,7 +11,7 @@ package shdb
 //@ ufn dkgSizeOfBytes(Bytes) Int
 //@ func DecodePureDKGResult
 //@   trusted
-//@   ensures ret1 == nil ==> ret0 != nil && fresh(ret0) && ret0.PublicKey != nil && len(ret0.PublicKeyShares) == dkgSizeOfBytes(content(b)) && (forall i :: 0 <= i && i < len(ret0.PublicKeyShares) ==> ret0.PublicKeyShares[i] != nil) && ret0.Threshold >= 1 && ret0.Threshold <= len(ret0.PublicKeyShares) && len(ret0.PublicKeyShares) <= 1048576
+//@   ensures ret1 == nil ==> ret0 != nil && fresh(ret0) && ret0.PublicKey != nil && len(ret0.PublicKeyShares) == dkgSizeOfBytes(content(b)) && (forall i :: 0 <= i && i < len(ret0.PublicKeyShares) ==> ret0.PublicKeyShares[i] != nil) && ret0.Threshold >= 1 && ret0.Threshold <= len(ret0.PublicKeyShares)
 //@ func DecodeEpochSecretKeyShare
 //@   trusted
 //@   ensures ret1 == nil ==> ret0 != nil
